@@ -1,5 +1,5 @@
 """Per-property pipelines (DESIGN.md section 3)."""
-import json, os, random
+import json, os, random, time
 import vlib
 from vlib import log, Infra
 
@@ -320,7 +320,7 @@ def mc(run, module, cfg, expect_violation=False, workers=4, timeout=1800, xmx="4
     (exit 2); a non-vacuity configuration must produce a counterexample."""
     r = run.tlc(module, cfg, workers=workers, timeout=timeout, xmx=xmx, check=False)
     if expect_violation:
-        if "is violated" not in r["stdout"]:
+        if "violated" not in r["stdout"]:
             raise Infra("non-vacuity configuration %s/%s found no counterexample:\n%s" % (module, cfg, r["stdout"][-3000:]))
     elif not r["ok"]:
         raise Infra("design-level model %s/%s does not satisfy its properties (specification error):\n%s" % (module, cfg, r["stdout"][-5000:]))
@@ -786,13 +786,14 @@ def c14(run):
                 f.write(json.dumps({"op": "random", "n": n, "m": m, "admin": adm, "client": cl, "seed": rnd.randint(1, 1 << 30)}) + "\n")
                 nrand += 1
     p = run.drive("mutex", rcases, rtrace, race=True, timeout=3000, env={"GORACE": "halt_on_error=0 exitcode=0"})
-    races = p.stderr.count("WARNING: DATA RACE")
-    lib_race = races > 0 and ("go-modbus-client" in p.stderr or "/repo/" in p.stderr)
+    reps = vlib.library_races(p.stderr)
+    races = len(reps)
+    lib_race = races > 0
     with open(trace, "a") as f:
         f.write(open(rtrace).read())
         if lib_race:
-            f.write(json.dumps({"ev": "reset", "mode": "race", "client": "tcp", "n": 0, "m": 0, "admin": False, "closer": 0, "connector": 0}) + "\n")
-            f.write(json.dumps({"ev": "race", "report": p.stderr[:3000]}) + "\n")
+            f.write(jd({"ev": "reset", "mode": "race", "client": "tcp", "n": 0, "m": 0, "admin": False, "closer": 0, "connector": 0}) + "\n")
+            f.write(jd({"ev": "race", "report": reps[0]}) + "\n")
     verdicts, nev = run.validate("Trace_Mutex", "Trace_Mutex.cfg", trace, resync_key='"ev":"reset"')
     kn, viol = vlib.settle(run, verdicts)
     ops = vlib.count_ops(trace, key="ev")
@@ -911,3 +912,216 @@ def c16(run):
              "end-to-end in a separate process with a second connection that must keep working; non-trivial = every segment",
         assumptions=["a reply that is not sent is not judged (the statement constrains the replies that are sent); a panic escaping a direct ReceiveRead call with a panicking/nil handler is recorded, not judged"],
         mcs=[], prop_filter=["C15", "C16"])
+
+
+# ---------------------------------------------------------------- C17 server lifecycle
+def jd(o):
+    return json.dumps(o, separators=(",", ":"))
+
+
+def life_drive(run, sub_cases, tag, race=False):
+    """runs `drive life` on a list of case dicts in one child process; a crash of the process is an
+    observation about the scenario that was running (recorded as a crash event), not infrastructure trouble"""
+    import subprocess
+    binp = run.build(race=race)
+    cp = run.path("life-%s.cases" % tag)
+    with open(cp, "w") as f:
+        for c in sub_cases:
+            f.write(json.dumps(c) + "\n")
+    out_all = run.path("life-%s.trace" % tag)
+    open(out_all, "w").close()
+    start = 0
+    races = 0
+    guard = 0
+    env = dict(os.environ)
+    if race:
+        env["GORACE"] = "halt_on_error=0 exitcode=0"
+    while start < len(sub_cases) and guard < 40:
+        guard += 1
+        tp = run.path("life-%s-%d.part" % (tag, start))
+        try:
+            p = subprocess.run([binp, "life", "-in", cp, "-out", tp, "-seed", str(run.seed), "-mode", "start=%d" % start],
+                               capture_output=True, text=True, timeout=2400, env=env)
+        except subprocess.TimeoutExpired:
+            raise Infra("life driver timed out")
+        part = open(tp).read() if os.path.exists(tp) else ""
+        lines = part.splitlines()
+        reps = vlib.library_races(p.stderr) if race else []
+        if reps:
+            races += len(reps)
+            lines.append(jd({"ev": "reset", "idx": -1, "mode": "race", "k": 0, "onServe": False, "onError": False, "onAccept": False, "onClose": False, "rejects": []}))
+            lines.append(jd({"ev": "race", "report": reps[0]}))
+            lines.append(jd({"ev": "end", "served": True, "dialAfter": False, "open": []}))
+        if p.returncode == 0:
+            with open(out_all, "a") as f:
+                f.write("\n".join(lines) + ("\n" if lines else ""))
+            break
+        crashed = ("panic:" in p.stderr) or ("fatal error" in p.stderr) or ("SIGSEGV" in p.stderr)
+        if not crashed:
+            raise Infra("life driver exited %d:\n%s" % (p.returncode, p.stderr[-3000:]))
+        # the scenario that was running: the last reset line
+        last = None
+        keep = []
+        for ln in lines:
+            try:
+                e = json.loads(ln)
+            except Exception:
+                continue          # torn last line
+            keep.append(ln)
+            if e.get("ev") == "reset":
+                last = e["idx"]
+        if last is None:
+            raise Infra("life driver crashed before any scenario:\n" + p.stderr[-3000:])
+        keep.append(jd({"ev": "crash", "stderr": p.stderr[-1800:]}))
+        keep.append(jd({"ev": "end", "served": False, "dialAfter": False, "open": []}))
+        with open(out_all, "a") as f:
+            f.write("\n".join(keep) + "\n")
+        start = last + 1
+    return out_all, races
+
+
+def life_pipeline(run):
+    import concurrent.futures as cf
+    T = run.tier == "thorough"
+    rnd = random.Random(run.seed)
+    # (A) design level
+    mc(run, "ServerLifecycle", "MC_Life_Ref.cfg", workers=12, xmx="12g")
+    for v in ("Guard", "Cancel", "Claim", "Straggler"):
+        mc(run, "ServerLifecycle", "MC_Life_%s.cfg" % v, expect_violation=True, workers=8, xmx="8g")
+    # (B) schedules: random walks of the model structured like the code (all switches off)
+    sched = run.path("sched.ndjson")
+    open(sched, "w").close()
+    res = run.tlc("ServerLifecycle", "Gen_Life.cfg", workers=1, timeout=900, xmx="4g", check=False,
+                  extra=["-simulate", "num=%d" % (30000 if T else 4000), "-depth", "70", "-seed", str(run.seed)])
+    seen = set()
+    scheds = []
+    for js in vlib.case_strings(res["stdout"]):
+        if js not in seen:
+            seen.add(js)
+            scheds.append(json.loads(js))
+    if len(scheds) < 50:
+        raise Infra("schedule generation produced only %d schedules:\n%s" % (len(scheds), res["stdout"][-2000:]))
+    log("[gen] ServerLifecycle/Gen_Life.cfg: %d distinct complete schedules from random walks" % len(scheds))
+    rnd.shuffle(scheds)
+    # prefer schedules that contain a shutdown or cancel, long ones first within the budget
+    scheds.sort(key=lambda s: -len(s["steps"]))
+    pick = scheds[:(6000 if T else 640)]
+    # directed schedules: all merges of two processes' steps around the critical sections of the as-implemented variants
+    dpath = run.path("directed.ndjson")
+    open(dpath, "w").close()
+    nd = run.gen("Gen_LifeDirected", "Gen_LifeDirected.cfg", dpath)
+    directed = [json.loads(x) for x in trace_lines(dpath)]
+    rnd.shuffle(directed)
+    if not T:
+        directed = directed[:520]
+    pick = pick + directed
+    rnd.shuffle(pick)
+    for i, s in enumerate(pick):
+        s["onServe"] = bool(i & 1)
+        s["onError"] = bool(i & 2)
+    nshard = 8
+    shards = [pick[i::nshard] for i in range(nshard)]
+    # (C) gated replay + free-running runs under the race detector
+    rcases = []
+    for i in range(1200 if T else 160):
+        cfgbits = i % 16
+        k = (2, 4, 6)[i % 3]
+        rej = [x for x in range(1, k + 1) if rnd.random() < 0.25] if cfgbits & 4 else []
+        rcases.append({"op": "liferand", "k": k, "onServe": bool(cfgbits & 1), "onError": bool(cfgbits & 2), "onAccept": bool(cfgbits & 4),
+                       "onClose": bool(cfgbits & 8), "rejects": rej, "steps": [], "seed": rnd.randint(1, 1 << 30)})
+    # idle server shut down right away / from within OnServeFunc (start-up vs Shutdown)
+    for i in range(24 if T else 8):
+        rcases.append({"op": "liferand", "k": 0, "onServe": True, "onError": bool(i & 1), "onAccept": bool(i & 2), "onClose": bool(i & 4), "rejects": [],
+                       "steps": [], "seed": rnd.randint(1, 1 << 30), "sdOnServe": i % 2 == 0})
+    rshards = [rcases[i::4] for i in range(4)]
+    run.build()
+    run.build(race=True)
+    outs, races = [], 0
+    t0 = time.time()
+    with cf.ThreadPoolExecutor(max_workers=12) as ex:
+        futs = [ex.submit(life_drive, run, sh, "g%d" % i, False) for i, sh in enumerate(shards)]
+        futs += [ex.submit(life_drive, run, sh, "r%d" % i, True) for i, sh in enumerate(rshards)]
+        for f in futs:
+            o, r = f.result()
+            outs.append(o)
+            races += r
+    log("[drive] life: %d gated schedules, %d free-running runs in %.1fs" % (len(pick), len(rcases), time.time() - t0))
+    trace = run.path("trace.ndjson")
+    with open(trace, "w") as f:
+        for o in outs:
+            f.write(open(o).read())
+    verdicts, nev = run.validate("Trace_Life", "Trace_Life.cfg", trace, resync_key='"ev":"reset"')
+    kn, viol = vlib.settle(run, verdicts)
+    ops = vlib.count_ops(trace, key="ev")
+    cov = {
+        "states": run.tlc_stats["states"], "transitions": run.tlc_stats["transitions"],
+        "traces_validated_against_impl": ops.get("reset", 0),
+        "evaluations": ops.get("reset", 0), "distinct_nontrivial": ops.get("hook", 0),
+        "rule": "model: 2 connections x all callback configurations x rejects x shutdown / cancel at every point, all interleavings (reference design holds, the four as-implemented "
+                "variants yield counterexamples); implementation: complete schedules sampled by TLC random walks of the code-structured model replayed through the gated hooks "
+                "(accept loop / connection goroutines / Shutdown block at every linearization point until the schedule gives them a step), plus free-running seeded runs with 2..6 clients, "
+                "16 callback configurations, handler delays, under the race detector; each scenario runs in a child process so that a crash is observed; non-trivial = hook events",
+        "schedules_generated": len(scheds) + nd, "directed_schedules_replayed": len(directed), "schedules_replayed": len(pick), "free_running_runs": len(rcases), "race_reports": races, "events_by_kind": ops,
+        "samples": vlib.sample_lines(trace, 3), "exhaustive": False,
+    }
+
+    lines = None
+
+    def confirm(v):
+        nonlocal lines
+        if lines is None:
+            lines = trace_lines(trace)
+        j = v["line"]
+        while j >= 0 and '"ev":"reset"' not in lines[j]:
+            j -= 1
+        if j < 0:
+            return "confirmed"
+        rs = json.loads(lines[j])
+        if rs["mode"] == "race" or (v.get("event") or {}).get("ev") == "crash":
+            return "confirmed"
+        steps = []
+        k = j + 1
+        while k < len(lines) and '"ev":"reset"' not in lines[k]:
+            k += 1
+        # find the original case by configuration + recorded ops is fragile; re-run from the case lists
+        pool = pick if rs["mode"] == "life" else rcases
+        cand = None
+        for sh_i, sh in enumerate(shards if rs["mode"] == "life" else rshards):
+            if rs["idx"] < len(sh):
+                c = sh[rs["idx"]]
+                if all(c.get(x) == rs.get(x) for x in ("k", "onServe", "onError", "onAccept", "onClose")) and list(c.get("rejects", [])) == list(rs.get("rejects", [])):
+                    # several shards can match on configuration: compare the recorded client ops with the schedule
+                    ops_rec = [(json.loads(x)["a"], json.loads(x)["p"]) for x in lines[j + 1:k] if '"ev":"op"' in x]
+                    ops_case = [(s["a"], s["p"]) for s in c["steps"] if s["a"] in ("dial", "send", "hangup", "cancel", "shutdown")]
+                    if rs["mode"] != "life" or ops_rec[:len(ops_case)] == ops_case or not ops_case:
+                        cand = c
+                        break
+        if cand is None:
+            return "confirmed"
+        v["context"] = {"replay_case": cand, "family": "life", "trace_spec": "Trace_Life"}
+        for attempt in range(1 if rs["mode"] == "life" else 4):
+            o, _ = life_drive(run, [cand], "confirm-%d-%d" % (v["line"], attempt), race=False)
+            vs, _ = run.validate("Trace_Life", "Trace_Life.cfg", o, shards=1)
+            if any(x["verdict"] == v["verdict"] for x in vs):
+                return "confirmed"
+        return "unreproduced"
+
+    state = {"n": 0}
+
+    def confirm_limited(v):
+        state["n"] += 1
+        if state["n"] > 8:
+            return "confirmed"
+        return confirm(v)
+
+    return vlib.finish(run, "model_checking", cov,
+                       ["the in-memory listener (net.Pipe) stands in for a TCP listener; 'the port no longer accepts' is observed as the listener having been closed",
+                        "the count given to the accept callback may be the number of live connections at any instant between the accept loop's return from Accept and the callback",
+                        "data races and crashes are observed by the Go race detector / the child process exit, not expressible in TLA+",
+                        "a connection accepted but not yet served when the context is cancelled is not judged (DESIGN 2.6)"],
+                       kn, viol, confirm=confirm_limited)
+
+
+@check("C17")
+def c17(run):
+    return life_pipeline(run)
